@@ -312,6 +312,11 @@ def cli_differential(ctx, cfg) -> None:
                 ctx.count("cli_runs_timed_out")
                 continue
             f = os.path.join(d, "data.json")
+            if pr.returncode < 0:
+                # killed by a signal (in practice the kernel's OOM killer: every CLI process and every pool worker imports
+                # torch): a resource limit of the sandbox, not an observation about the tree
+                ctx.count("cli_runs_killed_by_signal")
+                continue
             if pr.returncode != 0 or not os.path.exists(f):
                 ctx.violation("solve-command-raised", f"command line solve exited {pr.returncode} with --parallel-environments {p}: {err[-300:]}",
                               dict(cfg, cli=True, processes=[p]))
@@ -346,12 +351,12 @@ def run(ctx) -> None:
     quick = ctx.tier == "quick"
     venv.WORK_DIR.mkdir(parents=True, exist_ok=True)
     for _ in range(1 if quick else 3):
-        if ctx.elapsed() > 0.2 * ctx.budget_s:
+        if ctx.elapsed() > 0.2 * ctx.budget_s or ctx.shard >= 4:      # at most four shards start command lines (memory)
             break
         cli_differential(ctx, {"n": rng.choice([3, 4]), "generator": rng.choice(CONTINUOUS), "computer": rng.choice(sut.SA_COMPUTERS),
                                "gap": rng.choice(list(GAP_FUNCTIONS)), "solver": rng.choice(["greedy", "largest", "greedy_worst"]),
                                "seed": rng.randint(0, 10**6), "repetitions": rng.choice([5, 7, 12]), "budget": rng.choice([None, 2, 3]),
-                               "processes": [1, 2, 3] if quick else [1, 2, 3, 5, 8]})
+                               "processes": [1, 2, 3] if quick else [1, 2, 3, 5]})
     _STATE["log"] = str(venv.WORK_DIR / f"c12-events-{os.getpid()}.jsonl")
     proc_choices = [1, 2, 5] if quick else [1, 2, 3, 4, 5, 8, 16]
     # guaranteed minimum, independent of the time budget: one multi-worker comparison
